@@ -70,10 +70,24 @@ def rand_term(rng, model, cplx, maxbody=3):
 
 def op_list(rng, model, cplx):
     n = model.nsite
-    style = rng.choice(["onsite", "pairs", "repeat", "random", "long", "onediff", "mixed"])
+    style = rng.choice(["onsite", "pairs", "repeat", "random", "long", "onediff", "mixed"] + (["weaknh", "weaknh"] if cplx else []))
     one = (1.0 + 0j) if cplx else 1.0
     ops = []
-    if style == "onsite":
+    if style == "weaknh":
+        # factor F + i g with |g/F| between 1e-6 and 1e-5: the imaginary part of every value is tiny RELATIVE to the
+        # real part but an exact non-zero integer; the model (Gaussian integers) returns the full complex value
+        for _ in range(rng.randint(2, 5)):
+            nb = rng.randint(1, min(2, n))
+            sites = sorted(rng.sample(range(n), nb))
+            sym, dofs = [], []
+            for i in sites:
+                s_, d_ = rng.choice([x for x in symbols(model.basis[i], False) if x[0] in ("sigma_z", "sigma_x", r"b^\dagger b", r"a^\dagger a")] or symbols(model.basis[i], False))
+                sym.append(s_)
+                dofs += d_
+            f = complex(rng.choice([150000.0, 400000.0, -250000.0, 900000.0]), rng.choice([1.0, -1.0, 2.0]))
+            ops.append(Op(" ".join(sym), dofs, f))
+        ops.append(rand_term(rng, model, cplx))
+    elif style == "onsite":
         for i in range(n):
             s, d = rng.choice(symbols(model.basis[i], cplx))
             ops.append(Op(s, d, one))
